@@ -3,6 +3,7 @@
   Core-only so that it links as a `lean_exe`.
 -/
 import Driver.AsmAccept
+import Driver.LfsRead
 
 open Desync Driver
 
@@ -14,6 +15,7 @@ partial def loop (h : IO.FS.Stream) (out : IO.FS.Stream) : IO Unit := do
     loop h out
   else
     let r := runLine7 l
+    let r := runLine6 l
     out.putStrLn r
     out.flush
     loop h out
